@@ -15,6 +15,9 @@ def _run_view(prop: str, project: Project, tier: str) -> R.Report:
     except R.Abort as e:
         rep.notes.append(f"analysis stopped early after a finding: {e}")
     rep.check_nonvacuous()
+    inl = getattr(project, "inliner", None)
+    if inl is not None and inl.renamed:
+        rep.renamed_units = {n.split(":")[-1].split(".")[-1]: o.split(":")[-1].split(".")[-1] for n, o in inl.renamed.items() if n.split(".")[-1] != o.split(".")[-1]}
     return rep
 
 
